@@ -10,6 +10,7 @@ ID = 'C11'
 def config(tier):
     return {
         'level': 'exploration',
+        'cold_sample': 3 if tier == 'quick' else 20,
         'cases': 6000 if tier == 'quick' else 100000,
         'budget_s': 45 if tier == 'quick' else 560,
         'floors': {'cases': 300, 'outward_links_purged': 300,
